@@ -455,3 +455,9 @@ Proof.
 Qed.
 
 End NtpContract.
+
+(* ---------- sender reports: the most recent one defines the mapping ---------- *)
+Lemma sr_state_last reports r : sr_state (reports ++ [r]) = Some r.
+Proof. unfold sr_state. rewrite fold_left_app. reflexivity. Qed.
+Lemma sr_state_nil : sr_state [] = None.
+Proof. reflexivity. Qed.
